@@ -27,7 +27,10 @@ import (
 // C15 — store writes are atomic under concurrency, failed writes and crashes.
 func init() {
 	register(&Check{ID: "C15", Run: runC15, ShardDepth: 4})
-	shimos.DieFunc = func() { runtime.Goexit() }
+	// A thread that "dies" at a cut point simply never runs again (shimos.DieFunc blocks forever). It must NOT
+	// be ended with runtime.Goexit: that would run its deferred calls (clean-up code), which a killed process
+	// never executes. The caller's Set returns through the backend's own operation timeout (virtual time).
+	_ = runtime.NumGoroutine
 }
 
 var (
@@ -528,23 +531,21 @@ func runC15TransportCut(x *mc.X) {
 // directories must be identical (names of temporary files canonicalised), i.e. the simulated death leaves
 // exactly what the kernel leaves behind.
 
-func c15TreeDump(dir string) string {
-	var sb strings.Builder
+// c15TreeDump lists the files under dir as (name, size, content hash). entries holds the relative paths at
+// which a complete Set leaves values (learned from a dry run); every other file is a temporary of whatever
+// naming scheme the backend uses and is listed without its (random) name.
+func c15TreeDump(dir string, entries map[string]bool) string {
 	files := c17Files(dir)
-	var names []string
-	for p := range files {
-		names = append(names, p)
-	}
-	sort.Strings(names)
-	for _, p := range names {
+	var lines []string
+	for p, b := range files {
 		rel, _ := filepath.Rel(dir, p)
-		base := filepath.Base(rel)
-		if strings.HasPrefix(base, ".") || strings.Contains(base, "tmp") {
-			rel = filepath.Join(filepath.Dir(rel), "<temporary>")
+		if !entries[rel] {
+			rel = "<temporary>"
 		}
-		fmt.Fprintf(&sb, "%s %d %x\n", rel, len(files[p]), hashBytes(files[p]))
+		lines = append(lines, fmt.Sprintf("%s %d %x", rel, len(b), hashBytes(b)))
 	}
-	return sb.String()
+	sort.Strings(lines)
+	return strings.Join(lines, "\n") + "\n"
 }
 
 // c15CutSet performs Set(c15K, val) on dir, cut at operation index oi after short bytes; die is called at the cut.
@@ -594,6 +595,11 @@ func runC15Conformance(x *mc.X) {
 	evs = nil
 	_ = dc.Set(c15K, val)
 	shimos.Hook = nil
+	entries := map[string]bool{}
+	for p := range c17Files(dry) {
+		rel, _ := filepath.Rel(dry, p)
+		entries[rel] = true
+	}
 	os.RemoveAll(dry)
 	if len(evs) == 0 {
 		x.Failf("harness: no file-system operation observed during Set", "")
@@ -641,7 +647,7 @@ func runC15Conformance(x *mc.X) {
 		x.Failf("harness: the child process did not die at the cut point", "err=%v output=%s", err, clipStr(string(out), 500))
 		return
 	}
-	da, db := c15TreeDump(a), c15TreeDump(b)
+	da, db := c15TreeDump(a, entries), c15TreeDump(b, entries)
 	x.Transitions(2 * (oi + 1))
 	cls := fmt.Sprintf("conformance/%s/len=%d/prev=%v", evs[oi].Op, vlen, prev)
 	x.Nontrivial(cls)
